@@ -184,6 +184,12 @@ pub fn generate(prop: &str, rng: &mut Rng, plan: &mut Plan, index: u64) {
     }
     sp.setpgid = rng.chance(1, 4);
     sp.other_thread = rng.chance(1, 6);
+    // the parent's descriptor table is full at some point after the start: nothing the status and
+    // signal calls do needs a descriptor
+    if prop != "C11" && rng.chance(1, 12) {
+        plan.knobs.faults.fdalloc = Some((2 + rng.below(4) as u32, libc::EMFILE));
+        plan.knobs.batch = "faulty".into();
+    }
     // a fatal signal from the parent takes a moment to take effect: the child is doomed but not a zombie yet
     if rng.chance(1, 5) {
         plan.knobs.faults.kill_lag_ns = *rng.pick(&[20_000u64, 2_000_000, 300_000_000]);
